@@ -6,7 +6,7 @@ P(ek, ck, d, cat, nat, rt, lk, why) ==
   [ek |-> ek, ck |-> ck, d |-> d, cat |-> cat, nat |-> nat, rt |-> rt, lk |-> lk, why |-> why]
 
 EKs == {"eval", "evalasync", "module", "call", "construct", "jobs", "gen"}
-Routes == {"getter", "map", "reenter", "renew"}
+Routes == {"getter", "map", "reenter", "renew", "evalfn"}
 
 \* native boundary choices for depth d: none, or level n in 1..d with every route
 NatChoices(d) == {<<0, "js">>} \cup {<<n, r>> : n \in 1..d, r \in Routes}
@@ -52,7 +52,7 @@ AlphaTiny ==
     P("construct", "reserr", 0, 0, 0, "js", "none", "notcallable"),
     P("jobs", "throw", 1, 0, 0, "js", "none", "none"),
     P("gen", "limit", 1, 0, 0, "js", "rec", "none"),
-    P("module", "throw", 3, 2, 3, "map", "none", "none") }
+    P("module", "throw", 3, 2, 3, "evalfn", "none", "none") }
 
 GenIdsMC == 1..MaxLen
 =============================================================================
